@@ -86,6 +86,26 @@ CHECKS = {
              'linter is run on every vector and the API table compared row by row.',
         note='positions whose governing key the docs leave ambiguous (container env expression form) are not catalogued; '
              'positions without key are constrained only as far as 5.22 says; names embedded as fromJSON(toJSON(x))'),
+    'C03': dict(
+        category='model_checking', design_ref='5 (C03), 3.2 Schema/DocMutation/Routing',
+        technique='TLA+ specs Schema.tla (workflow syntax as data, base workflows) and DocMutation.tla (placeholder mutations '
+                  'with predicted observable) checked/enumerated by TLC; every vector rendered to YAML with known positions '
+                  '(validated against yaml.v3) and replayed through Linter.Lint',
+        text='Every scalar value position of the schema (114 scalar + matrix positions over 7 base workflows, all sibling '
+             'configurations) x malformed placeholder variants is generated by TLC with the predicted located diagnostic; '
+             'the real linter must report at that scalar (expression syntax class for template domains).',
+        note='bases must lint clean (else inconclusive); a Go reflection guard maps every AST scalar field to a schema '
+             'position; positions at bool/int/float domains use whole-scalar variants only'),
+    'C13': dict(
+        category='model_checking', design_ref='5 (C13), 3.2 Schema/DocMutation',
+        technique='TLA+ specs Schema.tla + DocMutation.tla (InsertKey / DupKey in any letter case / DropKey of mandatory keys '
+                  'at every mapping) enumerated by TLC with predicted diagnostics; replayed through the real parser and '
+                  'linter; sibling diagnostics compared between the mutated and the reference document',
+        text='Every fixed-key mapping of the schema (46 mappings) x foreign key / duplicate key (same, UPPER, Mixed case) / '
+             'dropped mandatory key is enumerated completely; prediction: a syntax-check diagnostic at the key (item for '
+             'schedule) and an unchanged multiset of all other diagnostics (no sibling suppression).',
+        note='open mappings have no foreign key; duplicate keys carry a copy of the original value; missing-key verdict is '
+             'presence of a "missing" diagnostic, its exact place is model drift only'),
 }
 
 REASON_NOT_YET = 'check not built yet in this revision of /verif (planned, see DESIGN.md section 5); not claimed'
